@@ -384,6 +384,145 @@ def min_eig(M):
     return float(np.linalg.eigvalsh((M + M.T) / 2).min()) if M.size else 0.0
 
 
+def certificate_check(pep, tau, info, desc, oracle_name):
+    """identity / signs / constant for the multipliers currently exposed by `pep`; returns failures"""
+    from PEPit import Point
+    from PEPit.tools.dict_operations import symmetrize_dict, prune_dict
+    fails = []
+    cons = pep._list_of_constraints_sent_to_wrapper; psds = pep._list_of_psd_sent_to_wrapper
+    comb = -np.dot(Point.list_of_leaf_points, np.dot(pep.residual, Point.list_of_leaf_points))
+    for m in psds: comb = comb - np.sum(m.eval_dual() * m.matrix_of_expressions)
+    for c in cons: comb = comb + c.eval_dual() * c.expression
+    d = prune_dict(symmetrize_dict((pep.objective - comb).decomposition_dict))
+    const = d.get(1, 0.0); resid = sum(abs(v) for k, v in d.items() if k != 1)
+    lam_min = min([c.eval_dual() for c in cons if c.equality_or_inequality == "inequality"] + [0.0])
+    s_min = min_eig(pep.residual); L_min = min([min_eig(m.eval_dual()) for m in psds] + [0.0])
+    nonsym = any(edict(m[i, j]) != edict(m[j, i]) for m in psds for i in range(m.shape[0]) for j in range(i))
+    tags = [oracle_name[:3]] + (["c01-nonsym-lmi"] if nonsym else [])
+    scale = max(1.0, abs(tau)); desc = dict(desc, nonsymmetric_lmi=nonsym)
+    if resid > 1e-4 * scale:
+        fails.append(dict(what="certificate identity does not close: |residual coefficients| = %.3e" % resid, oracle=oracle_name, input=desc, observed=resid, expected="<= 1e-4", tags=tags))
+    if lam_min < -1e-5 * scale or s_min < -1e-5 * scale or L_min < -1e-5 * scale:
+        fails.append(dict(what="multiplier sign / PSD violated: min lambda %.2e, min eig S %.2e, min eig Lambda %.2e" % (lam_min, s_min, L_min), oracle=oracle_name, input=desc, tags=tags))
+    if abs(const - tau) > 1e-7 * scale:
+        fails.append(dict(what="returned dual value %.9g is not the constant of the identity %.9g" % (tau, const), oracle=oracle_name, input=desc, tags=tags))
+    return fails, dict(residual=resid, min_lambda=lam_min)
+
+
+def c11_backends(n, seed, procs):
+    """the same model through the cvxpy back-end and through the MOSEK back-end (real MosekWrapper on the
+    stand-in mosek module): same value; the MOSEK path's exposed multipliers form a valid certificate in the
+    same sign convention; also with the trace / logdet heuristics (value within tolerance, certificate of
+    the original problem)"""
+    fails, samples, distinct, ev = [], [], set(), 0
+    for it in range(n):
+        rnd = random.Random(seed * 8117 + it)
+        st = rnd.getstate()
+        pep, info = build_model(rnd)
+        t_c = quiet_solve(pep, return_primal_or_dual="dual")
+        heur = rnd.choice([None, None, "trace", "logdet1"])
+        rnd2 = random.Random(); rnd2.setstate(st)
+        pep2, info2 = build_model(rnd2)
+        ev += 1
+        desc = dict(seed=seed, it=it, model=info, heuristic=heur)
+        kw = dict(wrapper="mosek", return_primal_or_dual="dual")
+        if heur: kw["dimension_reduction_heuristic"] = heur
+        buf = io.StringIO()
+        try:
+            with contextlib.redirect_stdout(buf):
+                t_m = pep2.solve(verbose=0, **kw)
+        except Exception as ex:
+            if t_c not in (None, "inconclusive"):
+                fails.append(dict(what="MOSEK back-end raises %s: %s on a model the cvxpy back-end solves (%.6g)" % (type(ex).__name__, str(ex)[:80], t_c), oracle="c11_backends", input=desc, tags=["c11"]))
+            continue
+        if pep2.wrapper_name != "mosek":
+            return dict(evaluations=0, distinct=0, failures=[], crashed="stand-in mosek module not used (wrapper_name=%s)" % pep2.wrapper_name)
+        if t_c in (None, "inconclusive") or t_m is None: continue
+        distinct.add(json.dumps(desc["model"], sort_keys=True) + str(heur))
+        sc = max(1.0, abs(t_c))
+        if abs(t_c - t_m) > 2e-5 * sc:
+            fails.append(dict(what="back-ends disagree: cvxpy %.8g, mosek path %.8g" % (t_c, t_m), oracle="c11_backends", input=desc, tags=["c11"]))
+        f2, st2 = certificate_check(pep2, t_m, info, desc, "c11_backends")
+        fails += f2
+        if heur:
+            prim = float(pep2.objective.eval())
+            if prim < t_m - 1e-4 - 2e-5 * sc:
+                fails.append(dict(what="after %s on the MOSEK path the primal value %.8g is more than tol below the optimum %.8g" % (heur, prim, t_m), oracle="c11_backends", input=desc, tags=["c11"]))
+        if len(samples) < 2: samples.append(dict(model=info, heuristic=heur, cvxpy=t_c, mosek_path=t_m, cert=st2))
+        if len(fails) > 5: break
+    return dict(evaluations=ev, distinct=len(distinct), failures=fails[:5], samples=samples)
+
+
+def scaled_model(rnd):
+    """a badly scaled model: subgradient method with a small Lipschitz constant (genuine Gram eigenvalues
+    far below the largest one)"""
+    from PEPit import PEP
+    import PEPit.functions as PF
+    M = rnd.choice([0.01, 0.02, 0.05]); nst = rnd.randint(1, 3)
+    pep = PEP(); f = pep.declare_function(PF.ConvexLipschitzFunction, M=M)
+    xs = f.stationary_point(); fs = f(xs); x0 = pep.set_initial_point(); pep.set_initial_condition((x0 - xs) ** 2 <= 1)
+    x = x0; gam = 1 / (M * math.sqrt(nst + 1))
+    for _ in range(nst):
+        g = f.gradient(x); x = x - gam * g
+    pep.set_performance_metric(f(x) - fs)
+    return pep, dict(kind="subgradient_scaled", M=M, n=nst)
+
+
+def c14_dimred(n, seed, procs):
+    """real solves with and without a dimension-reduction heuristic on the same model (several tolerances,
+    incl. tolerance < regularisation, well and badly scaled models): same dual bound and a valid certificate
+    of the original problem, primal within the stated tolerance, every constraint still satisfied by the
+    returned instance, and trace(G) not increased by the trace heuristic"""
+    fails, samples, distinct, ev = [], [], set(), 0
+    for it in range(n):
+        rnd = random.Random(seed * 6337 + it)
+        st = rnd.getstate()
+        mk = (lambda r: scaled_model(r)) if rnd.random() < .35 else (lambda r: build_model(r))
+        st = rnd.getstate()
+        pep0, info = mk(rnd)
+        t0 = quiet_solve(pep0, return_primal_or_dual="dual"); ev += 1
+        if t0 in (None, "inconclusive"): continue
+        G0 = np.asarray(pep0.G_value, dtype=float)
+        heur = rnd.choice(["trace", "trace", "logdet1", "logdet2"])
+        tol = rnd.choice([1e-4, 1e-5, 1e-6, 1e-3]); reg = rnd.choice([1e-3, 1e-2, 1e-4])
+        mode = rnd.choice(["dual", "primal"])
+        r2 = random.Random(); r2.setstate(st)
+        pep, info = mk(r2)
+        desc = dict(seed=seed, it=it, model=info, heuristic=heur, tol=tol, reg=reg, mode=mode)
+        try:
+            with contextlib.redirect_stdout(io.StringIO()):
+                t = pep.solve(verbose=0, solver="CLARABEL", dimension_reduction_heuristic=heur, tol_dimension_reduction=tol,
+                              eig_regularization=reg, return_primal_or_dual=mode)
+        except Exception as ex:
+            if type(ex).__name__ == "SolverError": continue
+            fails.append(dict(what="solve with %s raises %s" % (heur, type(ex).__name__), oracle="c14_dimred", input=desc, tags=["c14"])); continue
+        if t is None: continue
+        distinct.add(json.dumps(desc, sort_keys=True, default=str))
+        sc = max(1.0, abs(t0)); small = max(abs(t0), 1e-12)
+        f2, st2 = certificate_check(pep, t0 if mode == "primal" else t, info, desc, "c14_dimred")
+        # the constant of the identity must be the ORIGINAL dual bound whichever value is returned
+        fails += [f for f in f2 if "returned dual value" not in f["what"] or mode == "dual"]
+        if mode == "dual" and abs(t - t0) > 2e-6 * sc + 1e-3 * small * 0:
+            fails.append(dict(what="dual bound with %s is %.9g, without it %.9g" % (heur, t, t0), oracle="c14_dimred", input=desc, tags=["c14"]))
+        prim = float(pep.objective.eval())
+        if prim < t0 - tol - 3e-6 * sc:
+            fails.append(dict(what="primal value %.9g is more than tol=%g below the optimum %.9g" % (prim, tol, t0), oracle="c14_dimred", input=desc, observed=t0 - prim, expected="<= %g" % tol, tags=["c14"]))
+        worst = 0.0
+        for c in pep._list_of_constraints_sent_to_wrapper:
+            v = float(c.expression.eval()); worst = max(worst, v if c.equality_or_inequality == "inequality" else abs(v))
+        for m in pep._list_of_psd_sent_to_wrapper: worst = max(worst, -min_eig(m.eval()))
+        # scale-aware threshold: solver noise is ~1e-8 absolute; a violation comparable to the value itself is not noise
+        if worst > 1e-5 * sc and worst > 1e-6:
+            if worst > max(1e-5, 1e-2 * small):
+                fails.append(dict(what="the instance returned after %s violates a constraint by %.3e (value %.3e)" % (heur, worst, t0), oracle="c14_dimred", input=desc, tags=["c14"]))
+        G = np.asarray(pep.G_value, dtype=float)
+        if heur == "trace" and np.trace(G) > np.trace(G0) + 1e-5 * max(1.0, abs(np.trace(G0))):
+            fails.append(dict(what="trace heuristic increased the trace: %.8g -> %.8g" % (np.trace(G0), np.trace(G)), oracle="c14_dimred", input=desc, tags=["c14"]))
+        if len(samples) < 2: samples.append(dict(desc, dual=t0, primal=prim, worst_constraint=worst, trace_before=float(np.trace(G0)), trace_after=float(np.trace(G))))
+        if len(fails) > 5: break
+    return dict(evaluations=ev, distinct=len(distinct), failures=fails[:5], samples=samples)
+
+
 def c01_certificate(n, seed, procs):
     """after a real solve, rebuild the identity objective - tau = sum(lambda*constraint) - <S,G> - sum<Lambda,T>
     from the exposed multipliers, independently of PEPit's own check: coefficient residual, signs, PSD-ness,
@@ -540,9 +679,9 @@ def c16_unsolved(n, seed, procs):
     return dict(evaluations=n, distinct=len(distinct), failures=fails[:5], samples=samples)
 
 
-ORACLES = dict(c03_members=c03_members, c04_orders=c04_orders, c15_blocks=c15_blocks, c01_certificate=c01_certificate,
+ORACLES = dict(c14_dimred=c14_dimred, c11_backends=c11_backends, c03_members=c03_members, c04_orders=c04_orders, c15_blocks=c15_blocks, c01_certificate=c01_certificate,
                c02_instance=c02_instance, c16_unsolved=c16_unsolved)
-PARALLEL = {"c01_certificate", "c02_instance"}
+PARALLEL = {"c01_certificate", "c02_instance", "c11_backends", "c14_dimred"}
 try:
     import oracles3
     ORACLES.update(oracles3.ORACLES); PARALLEL |= set(getattr(oracles3, "PARALLEL", ()))
